@@ -104,8 +104,14 @@ _public_ int m_mod_set_batch_size(m_mod_t *mod, size_t len) {
 
 _public_ int m_mod_set_batch_timeout(m_mod_t *mod, uint64_t timeout_ns) {
     M_MOD_ASSERT(mod);
+    M_MOD_CONSUME_TOKEN(mod);
 
-    // src_deregister and src_register already consume a token
+    /*
+     * The call was charged once, and refused as a whole if no token was left:
+     * managing the internal timer must neither be refused halfway nor be charged again.
+     */
+    const uint64_t tokens = mod->tb.tokens;
+    mod->tb.tokens = UINT64_MAX;
 
     /* If it was already set, remove old timer */
     if (mod->batch.timer.ns != 0) {
@@ -119,8 +125,11 @@ _public_ int m_mod_set_batch_timeout(m_mod_t *mod, uint64_t timeout_ns) {
             // Set a maximum value for batching so that only timed batching will be effective
             mod->batch.len = SIZE_MAX;
         }
-        return m_mod_src_register_tmr(mod, &mod->batch.timer, M_SRC_INTERNAL | M_SRC_PRIO_HIGH, &mod->batch);
+        const int ret = m_mod_src_register_tmr(mod, &mod->batch.timer, M_SRC_INTERNAL | M_SRC_PRIO_HIGH, &mod->batch);
+        mod->tb.tokens = tokens;
+        return ret;
     }
+    mod->tb.tokens = tokens;
     if (mod->batch.len == SIZE_MAX) {
         // Timed batching was the only one enabled: no batching anymore
         mod->batch.len = 0;
